@@ -403,17 +403,19 @@ def run(ctx):
                 "are validated event by event by TLC (ScansTrace)")
     det = Det("det")
     nrows = 0
+    keys = set()
     with cheap_plan_stacks():
         with open(cases_file) as fh:
             for ln in fh:
                 row = json.loads(ln)
                 nrows += 1
+                keys.add(json.dumps([row["kind"], row["axes"], row["snake"]], sort_keys=True))
                 replay_row(ctx, row, det, nrows)
                 if len(row["pts"]) >= 4 and any(row["snake"]):
                     ctx.sample({"kind": row["kind"], "axes": row["axes"], "snake": row["snake"], "pts": row["pts"][:6], "md": row["md"]}, limit=2)
     ctx.note(f"{nrows} rows of Scans.tla replayed through the real plans")
-    if nrows != res.distinct - NBLOCKS:       # Scans.tla: NBlocks initial block states + one state per case
-        ctx.machinery(f"TLC reported {res.distinct - NBLOCKS} cases but {nrows} rows were dumped")
+    if len(keys) != res.distinct - NBLOCKS:   # Scans.tla: NBlocks initial block states + one state per (distinct) case
+        ctx.machinery(f"TLC reported {res.distinct - NBLOCKS} cases but {len(keys)} distinct rows were dumped")
 
     # larger random requests: recorded streams -> TLC
     rng = random.Random(ctx.seed)
